@@ -120,6 +120,19 @@ func main() {
 		bm := bmSpec(os.Args[2])
 		conf := new(bondmachine.Config)
 		section("main", bm.Write_verilog_main(conf, "bondmachine", "iverilog"))
+		// the architecture module of every processor (used as a black box: only its port list matters)
+		for i, d := range bm.Processors {
+			n := strconv.Itoa(i)
+			section("arch"+n, bm.Domains[d].Arch.Write_verilog("a"+n, map[string]string{"processor": "p" + n, "rom": "p" + n + "rom", "ram": "p" + n + "ram"}, "iverilog"))
+		}
+		fmt.Printf("//@@INFO links=")
+		for i, l := range bm.Links {
+			if i > 0 {
+				fmt.Print(",")
+			}
+			fmt.Print(l)
+		}
+		fmt.Println()
 	default:
 		os.Exit(2)
 	}
